@@ -115,7 +115,8 @@ type simConn struct {
 	failKind  string
 	failed    bool
 	closed    bool
-	deadline  time.Time
+	deadline  time.Time // write deadline
+	rdeadline time.Time // read deadline
 	inRead    bool
 }
 
@@ -155,12 +156,20 @@ func (c *simConn) Read(b []byte) (int, error) {
 		w.sim.Event(0x7ead, 0)
 		return 0, nil
 	}
+	rdDue := func() bool { return !c.rdeadline.IsZero() && !simrt.Now().Before(c.rdeadline) }
 	simrt.WaitUntil(func() bool {
-		return c.closed || c.pos < c.limit() || (c.failAt >= 0 && c.pos >= c.failAt && c.avail >= c.failAt)
+		return c.closed || c.pos < c.limit() || (c.failAt >= 0 && c.pos >= c.failAt && c.avail >= c.failAt) || rdDue()
 	})
 	if c.closed {
 		w.sim.Event(0x7ead, 0xc105ed)
 		return 0, errClosed
+	}
+	if c.pos >= c.limit() && !(c.failAt >= 0 && c.pos >= c.failAt && c.avail >= c.failAt) && rdDue() {
+		// a read deadline set by the code under test expired with nothing to read: the
+		// connection itself is healthy (this is not an injected failure)
+		w.faults.Add("read_deadline_expired", 1)
+		w.sim.Event(0x7ead, 0xdead11)
+		return 0, timeoutErr{}
 	}
 	if c.pos < c.limit() {
 		n := c.limit() - c.pos
@@ -193,6 +202,9 @@ func (c *simConn) Read(b []byte) (int, error) {
 
 func (c *simConn) Write(b []byte) (int, error) {
 	w := c.w
+	// operations on the connection are visible to the other goroutines of the stream: a
+	// scheduling point in front of each (Read parks anyway)
+	simrt.Yield()
 	call := w.writes
 	w.writes++
 	if c.closed {
@@ -227,17 +239,33 @@ func (c *simConn) Write(b []byte) (int, error) {
 }
 
 func (c *simConn) Close() error {
+	simrt.Yield()
 	if !c.closed {
 		c.closed = true
 		c.w.sim.Event(0xc105e, 0)
 	}
 	return nil
 }
-func (c *simConn) LocalAddr() net.Addr                { return simAddr{} }
-func (c *simConn) RemoteAddr() net.Addr               { return simAddr{} }
-func (c *simConn) SetDeadline(t time.Time) error      { c.deadline = t; return nil }
-func (c *simConn) SetReadDeadline(t time.Time) error  { return nil }
+func (c *simConn) LocalAddr() net.Addr  { return simAddr{} }
+func (c *simConn) RemoteAddr() net.Addr { return simAddr{} }
+func (c *simConn) SetDeadline(t time.Time) error {
+	c.deadline = t
+	c.setRead(t)
+	return nil
+}
+func (c *simConn) SetReadDeadline(t time.Time) error  { c.setRead(t); return nil }
 func (c *simConn) SetWriteDeadline(t time.Time) error { c.deadline = t; return nil }
+
+// setRead arms the read deadline; an event at that instant lets the discrete-event clock
+// jump there when the system is otherwise idle.
+func (c *simConn) setRead(t time.Time) {
+	c.rdeadline = t
+	if !t.IsZero() {
+		if d := t.Sub(simrt.Now()); d > 0 {
+			c.w.sim.At(d, func() {})
+		}
+	}
+}
 
 // noteRead records which fault kinds actually fired for bytes [a,b) returned by one Read.
 func (w *world) noteRead(a, b int) {
@@ -443,6 +471,13 @@ func (w *world) consumer() {
 			w.faults.Add("consumer_stall", 1)
 			for i := 0; i < k; i++ {
 				simrt.Yield()
+			}
+		}
+		for _, sl := range sc.Consumer.Sleeps {
+			if sl[0] == n {
+				// the application is busy for a stretch of simulated time (a stalled node)
+				w.faults.Add("consumer_sleeps_simulated_time", 1)
+				simrt.Sleep(time.Duration(sl[1]) * time.Millisecond)
 			}
 		}
 		msg, ok := <-simrt.RC(-1, w.stream.Inbound)
